@@ -53,6 +53,7 @@ package xmpp
 // (lastMore false) without error and the last element decoded from the peer
 // was <success/>.
 //@ func negotiateClient
+//@   noswallow[C04]
 //@   requires typeof(data) == []string
 //@   ghost lastMore bool = true
 //@   ghost sawSuccess bool = false
@@ -84,6 +85,7 @@ package xmpp
 // without error; the mechanism used is one of the configured ones and the one
 // the initiator named.
 //@ func negotiateServer
+//@   noswallow[C04]
 //@   ghost stepOK bool = false
 //@   callsite (*mellium.im/sasl.Negotiator).Step#1
 //@     after: stepOK = ret2 == nil && !ret0
@@ -179,6 +181,7 @@ package xmpp
 // resourcepart of its own address and adopts the returned address only from a
 // result IQ carrying the request id. Ready is never reported with an error.
 //@ func bind$3
+//@   noswallow[C04]
 //@   ghost updated bool = false
 //@   callsite (*Session).UpdateAddr#1
 //@     assert[C12] resp.ID == reqID && resp.Type == "result" && arg1 == resp.Bind.JID
@@ -186,6 +189,15 @@ package xmpp
 //@   ghost want string
 //@   callsite (mellium.im/xmpp/jid.JID).Resourcepart#1
 //@     after: want = ret0
+// receiving side: the reply carries the request id; a refusal by the
+// application is an error reply and is not reported as a bound session
+//@   ghost refused bool = false
+//@   callsite (*bindIQ).WriteXML#1
+//@     assert[C12] arg0.IQ.ID == iqid
+//@     assert[C12,C04] ok ==> arg0.IQ.Type == "error" && arg0.Err != nil
+//@     assert[C12,C04] !ok ==> arg0.IQ.Type == "result" && arg0.Err == nil && arg0.Bind.JID == j
+//@     after: refused = ok
+//@   ensures[C12,C04] refused ==> result2 != nil && result0 & Ready == 0
 //@   callsite (*bindIQ).WriteXML#2
 //@     assert[C12] arg0.Bind.Resource == want && arg0.IQ.Type == "set" && arg0.IQ.ID == reqID
 //@   ghost st0 SessionState
